@@ -7,7 +7,7 @@ operations the Lexer (and plausible rewrites of it) apply -- +, ==, in, truth, l
 find, rstrip, lstrip, strip, removesuffix, removeprefix, isspace -- are run through the MODEL on the path the pinned text selects;
 the model's result must be uniquely determined and equal to what io.StringIO / str give.
 
-usage: tools/xcheck_ext_C15_text.py [max_len=3]      exit 0 = all agree
+usage: tools/xcheck_ext_C15_text.py [max_len=2]      exit 0 = all agree   (2: 5 736 cases, about 4 min; 3: 48 486 cases, about 30 min)
 """
 import io
 import itertools
@@ -206,7 +206,7 @@ def checks_for(text):
 
 
 def main():
-    max_len = int(sys.argv[1]) if len(sys.argv) > 1 else 3
+    max_len = int(sys.argv[1]) if len(sys.argv) > 1 else 2
     n_cases = bad = 0
     for L in range(max_len + 1):
         for tup in itertools.product(ALPHABET, repeat=L):
